@@ -2,4 +2,5 @@
 let table : (string * (Model.n list -> Model.n list)) list = [
   ("inflights", Model.run_inflights);
   ("quorum", Model.run_quorum);
+  ("raftlog", Model.run_raftlog);
 ]
